@@ -13,6 +13,7 @@
 import SpectraVerif.Driver.Util
 import SpectraVerif.Model.HermSolver
 import SpectraVerif.Prelude.ScF32
+import SpectraVerif.Driver.C02
 
 namespace Drv.C05
 open Lin Orch
@@ -118,6 +119,7 @@ end generic
 def handle : List String → Option String
   | "herm" :: rest => handleBody (α := Float) rest
   | "herm32" :: rest => handleBody (α := Float32) rest
+  | "gen" :: rest => Drv.C02.handle ("gen" :: rest)      -- general family: the numeric instance `GenSolver.genKern` (Driver/C02.lean)
   | _ => none
 
 end Drv.C05
